@@ -21,6 +21,9 @@ SeqToSet(s) == {s[n] : n \in 1..Len(s)}
 CfgOf(tr) == [k |-> tr.cfg.k, solveT |-> tr.cfg.solveT, skipT |-> tr.cfg.skipT, out |-> tr.cfg.out,
               foreign |-> SeqToSet(tr.cfg.foreign), bad |-> tr.cfg.bad]
 
+\* coarse traces log only reject / open / close / return (used for the rejection family, C19)
+Coarse == T.coarse
+
 TInit == /\ tid \in 1..Len(Batch) /\ l = 1 /\ InitWith(CfgOf(Batch[tid]))
 
 IsEv(e) == l <= Len(T.ev) /\ Ev.ev = e /\ l' = l + 1 /\ UNCHANGED tid
@@ -57,15 +60,17 @@ DiskFrame(f) == [step |-> f.step, time |-> f.time, content |-> f.content, hasrs 
                  rs |-> f.rs, complete |-> f.complete]
 TClose == /\ IsEv("close") /\ Close
           /\ FsMatches(fs', Ev.fs)
-          /\ Len(Ev.frames) = Len(frames)
-          /\ \A n \in 1..Len(frames) :
-                IF frames[n].complete THEN DiskFrame(Ev.frames[n]) = frames[n]
-                ELSE ~Ev.frames[n].complete       \* what a partial frame holds is not specified
+          /\ (~Coarse =>
+                /\ Len(Ev.frames) = Len(frames)
+                /\ \A n \in 1..Len(frames) :
+                      IF frames[n].complete THEN DiskFrame(Ev.frames[n]) = frames[n]
+                      ELSE ~Ev.frames[n].complete)    \* what a partial frame holds is not specified
 
 TReturn == /\ IsEv("return") /\ pc \in {"returned", "rejected"}
            /\ result = Ev.result
            /\ FsMatches(fs, Ev.fs)
-           /\ (result = "solution" => /\ Ev.ltimes = LoadedTimes
+           /\ ((result = "solution" /\ ~Coarse) =>
+                                      /\ Ev.ltimes = LoadedTimes
                                       /\ Ev.luids = LoadedUids
                                       /\ Ev.range = <<0, Len(frames) - 1>>)
            /\ pc' = "done"
@@ -76,6 +81,7 @@ TNext == \/ TPass \/ TReject \/ TOpen \/ TSaveOk \/ TSaveFault \/ TUpdateOk \/ T
          \/ TClose \/ TReturn
          \/ Silent(Run) \/ Silent(Label) \/ Silent(SaveBegin) \/ Silent(Clear) \/ Silent(Stop)
          \/ Silent(Final) \/ Silent(StageEnd) \/ Silent(Assemble)
+         \/ (Coarse /\ (Silent(Update) \/ Silent(SaveEnd)))
 
 TSpec == TInit /\ [][TNext]_tvars
 
